@@ -612,3 +612,103 @@ var TrapOnce = &core.Rule{Name: "R-TRAPONCE", Run: func(p *core.Prog) *core.Resu
 	}
 	return res
 }, Doc: "a trapped proxy operation is not repeated on the target after the trap answered, and a trap's descriptor object is read once"}
+
+// R-OPTDEFAULT (C07 and the other built-in libraries): an optional numeric argument whose default is
+// not what ToInteger(undefined)/ToNumber(undefined) gives must be defaulted when the argument *is
+// undefined*, not when it is *absent*: `[[1,[2]]].flat(undefined)` used depth 0 instead of 1 because
+// the test was `len(call.Arguments) > 0`.
+// Rule: every phi that merges a nonzero constant (the default) with the direct result of
+// ToInteger()/ToNumber()/ToFloat() on a call argument (FunctionCall.Argument(k) / Arguments[k]) has
+// that conversion in a block controlled by a comparison of the same argument with `_undefined`.
+var OptDefault = &core.Rule{Name: "R-OPTDEFAULT", Run: func(p *core.Prog) *core.Result {
+	res := core.NewResult("R-OPTDEFAULT", 3)
+	isArg := func(v ssa.Value) bool {
+		switch x := v.(type) {
+		case *ssa.Call:
+			if c := x.Call.StaticCallee(); c != nil && c.Name() == "Argument" && c.Signature.Recv() != nil {
+				return strings.HasSuffix(c.Signature.Recv().Type().String(), ".FunctionCall")
+			}
+		case *ssa.UnOp:
+			if ia, ok := x.X.(*ssa.IndexAddr); ok {
+				if ld, ok := ia.X.(*ssa.UnOp); ok {
+					if fv := core.FieldOf(ld.X); fv != nil && fv.Name() == "Arguments" {
+						return true
+					}
+				}
+				if fl, ok := ia.X.(*ssa.Field); ok {
+					if st, ok := fl.X.Type().Underlying().(*types.Struct); ok && st.Field(fl.Field).Name() == "Arguments" {
+						return true
+					}
+				}
+			}
+		}
+		return false
+	}
+	n := 0
+	per := map[string]int{}
+	for _, f := range p.Funcs {
+		if !p.InModule(f) {
+			continue
+		}
+		core.AllInstrs(f, func(in ssa.Instruction) {
+			ph, ok := in.(*ssa.Phi)
+			if !ok {
+				return
+			}
+			hasDefault := false
+			var conv *ssa.Call
+			for _, e := range ph.Edges {
+				if k, ok := e.(*ssa.Const); ok && k.Value != nil && k.Value.String() != "0" && k.Value.String() != "false" && !k.IsNil() {
+					hasDefault = true
+					continue
+				}
+				if c, ok := stripConv(e).(*ssa.Call); ok && c.Call.IsInvoke() {
+					if m := c.Call.Method.Name(); (m == "ToInteger" || m == "ToNumber" || m == "ToFloat") && isArg(c.Call.Value) {
+						conv = c
+					}
+				}
+			}
+			if !hasDefault || conv == nil {
+				return
+			}
+			n++
+			name := core.FuncName(f)
+			per[name]++
+			key := name + ":a nonzero default of an optional argument applies when the argument is undefined"
+			if per[name] > 1 {
+				key = fmt.Sprintf("%s#%d", key, per[name])
+			}
+			guarded := false
+			for _, cp := range core.ControllingConds(conv.Block()) {
+				b, ok := cp.Cond.(*ssa.BinOp)
+				if !ok || (b.Op != token.NEQ && b.Op != token.EQL) {
+					continue
+				}
+				for _, pair := range [][2]ssa.Value{{b.X, b.Y}, {b.Y, b.X}} {
+					if stripConv(pair[0]) != stripConv(conv.Call.Value) {
+						continue
+					}
+					if mi, ok := pair[1].(*ssa.MakeInterface); ok {
+						if ld, ok := mi.X.(*ssa.UnOp); ok {
+							if g, ok := ld.X.(*ssa.Global); ok && g.Name() == "_undefined" && cp.Pol == (b.Op == token.NEQ) {
+								guarded = true
+							}
+						}
+					}
+					if ld, ok := pair[1].(*ssa.UnOp); ok {
+						if g, ok := ld.X.(*ssa.Global); ok && g.Name() == "_undefined" && cp.Pol == (b.Op == token.NEQ) {
+							guarded = true
+						}
+					}
+				}
+			}
+			if guarded {
+				res.OK(key, p.Pos(conv.Pos()), "converted only when the argument is not undefined")
+			} else {
+				res.Bad(key, p.Pos(conv.Pos()), "the argument is converted whenever it is present: an explicit undefined gives "+conv.Call.Method.Name()+"(undefined) instead of the default the other edge of the phi supplies")
+			}
+		})
+	}
+	res.Count("optional numeric arguments with a nonzero default", n)
+	return res
+}, Doc: "an optional numeric argument with a nonzero default is defaulted when undefined, not when absent"}
